@@ -3434,9 +3434,11 @@ func _append(n *node) {
 		}
 
 		n.exec = func(f *frame) bltn {
+			// The appended values are all evaluated before the slice is modified: they may
+			// be elements of the slice itself, as in append(s[:0], s[1], s[0]).
 			sl := make([]reflect.Value, l)
 			for i, v := range values {
-				sl[i] = v(f)
+				sl[i] = fixArg(v(f))
 			}
 			dest(f).Set(reflect.Append(value(f), sl...))
 			return next
